@@ -8,6 +8,7 @@ mod lts;
 mod names;
 mod obs;
 mod session;
+mod tree2;
 
 use serde_json::json;
 use std::collections::HashMap;
@@ -78,6 +79,12 @@ fn main() {
                 depth: get("depth", "1").parse().unwrap(),
             };
             println!("{}", handles::run(&lts, &o));
+            0
+        }
+        "tree2" => {
+            let r = tree2::run(&PathBuf::from(get("lts", "")), &get("cfg1", "mem"), &get("cfg2", "mem"), &get("names", "ascii"), get("b", "1").parse().unwrap(),
+                               get("frac", "0.01").parse().unwrap(), get("seed", "1").parse().unwrap(), &PathBuf::from(get("out", "work/tree2")));
+            println!("{}", r);
             0
         }
         "join" => {
